@@ -9,7 +9,7 @@ import core
 from core import fr, w_rat, w_rats, p_rats, cmp_exact, cmp_budget, call_impl
 from _c17_common import norm_res, cmp_seq, cmp_rows, w_rows, p_rows, DYADIC_DTS
 
-PROP_MODULES = ['C03', 'C03a', 'C03Gen', 'C03Compose', 'C03GenSpectra', 'C03GenSpec2', 'C03GenSpec2b']
+PROP_MODULES = ['C03', 'C03a', 'C03Gen', 'C03Compose', 'C03GenSpectra', 'C03GenSpec2', 'C03GenSpec2b', 'C03Duhamel']
 
 RULE = ("spectra: records n in 2..400 (quick) / 3000 of shapes hat/noise/sine/step/spike/int/1e+-6/zero, dt dyadic or in 10^[-3,0], 1..6 periods "
         "per call with T/dt log-uniform in [0.2, 2e4] or in {0.2,1,5.9,6,6.1,20}, optional leading 0, xi in {0,1e-3,0.05,0.3,0.7,0.99} u U[0,1), "
